@@ -75,6 +75,16 @@ def simp(e):
                 flat.extend(x[2:])
             else:
                 flat.append(x)
+        if op in ('and', 'or'):
+            absorbing = 0 if op == 'and' else 1
+            lits = [x for x in flat if x[0] == 'num']
+            if any((x[1] != 0) == bool(absorbing) for x in lits):
+                return N(absorbing)
+            flat = [x for x in flat if x[0] != 'num']
+            if not flat:
+                return N(1 - absorbing)
+            if len(flat) == 1:
+                return flat[0]
         if op in ('+', '*'):
             nums = [x for x in flat if x[0] == 'num' and x[1].denominator == 1]
             rest = [x for x in flat if not (x[0] == 'num' and x[1].denominator == 1)]
@@ -117,6 +127,13 @@ def simp(e):
                 return flat[0]
         flat.sort(key=repr)
         return ('op', op) + tuple(flat)
+    if op in ('==', '!=', '<', '<=') and len(a) == 2 and a[0][0] == 'num' and a[1][0] == 'num':
+        x, y = a[0][1], a[1][1]
+        return N(1 if {'==': x == y, '!=': x != y, '<': x < y, '<=': x <= y}[op] else 0)
+    if op in ('==', '!=') and len(a) == 2 and a[0][0] == 'str' and a[1][0] == 'str':
+        return N(1 if (a[0][1].rstrip() == a[1][1].rstrip()) == (op == '==') else 0)
+    if op in ('==', '!=') and len(a) == 2 and a[0] == a[1] and ir.count_draws(a[0]) == 0:
+        return N(1 if op == '==' else 0)        # `x != x` is the port's NaN-poison test
     if op in ('max', 'min', '==', '!='):
         return ('op', op) + tuple(sorted(a, key=repr))
     if op in ('>', '>='):
@@ -196,7 +213,7 @@ class Side:
             if k == 'call':
                 name = self.callee(x[1])
                 args = x[2:]
-                if self.lang == 'c':
+                if self.lang == 'c' and '::' not in name:
                     args = _drop_ctx(args)
                     if name == 'emass' and not args:
                         return SYM_EMASS
@@ -218,7 +235,7 @@ class Side:
         if k == 'call':
             name = self.callee(s[1])
             args = tuple(self.rw(a) for a in s[2])
-            if self.lang == 'c':
+            if self.lang == 'c' and '::' not in name:
                 args = _drop_ctx(args)
             return ('call', name, args, s[3])
         if k == 'branch':
@@ -325,7 +342,7 @@ def _rewrite_node(n, f):
 
 
 import re as _re
-PURE_CALL = _re.compile(r'(^|::)(get_\w+|is_\w+|has_\w+|empty|size|back|front|mass|fermi|cgamma|quiet_nan)$')
+PURE_CALL = _re.compile(r'(^|::)(get_\w+|is_\w+|has_\w+|empty|size|back|front|mass|fermi|cgamma|quiet_nan|dbd_mode_from_legacy_modebb|dbd_mode_description)$')
 
 
 def _pure(e):
@@ -643,6 +660,64 @@ def split_webs(g, outputs, lang, record=None, inputs=()):
     return g
 
 
+def uninit_zero_stores(g, outputs, lang='c'):
+    """port side: stores `v = 0` to a non-shared variable that no real definition reaches (only 'no definition'
+    or other such zero stores): they replace an indeterminate value, like a zero-initialising declaration"""
+    ENTRY = -1
+    defs = {}
+    for n in g.nodes:
+        if n.kind == 'assign' and n.stmt[1][0] == 'var':
+            defs[n.id] = n.stmt[1][1]
+    cand = {n.id for n in g.nodes if n.id in defs and n.stmt[2] == ('num', Fraction(0))
+            and defs[n.id] not in outputs}
+    weak = {}
+    for n in g.nodes:
+        w = set()
+        calls = []
+        for e in _stmt_exprs(n):
+            for x in ir.subexprs(e):
+                if x[0] == 'call':
+                    calls.append((x[1], x[2:]))
+        if n.kind == 'call':
+            calls.append((n.stmt[1], n.stmt[2]))
+        for name, args in calls:
+            for i, a in enumerate(args):
+                if a[0] == 'var' and _maywrite(lang, name, i):
+                    w.add(a[1])
+        weak[n.id] = w
+    IN = {n.id: set() for n in g.nodes}
+    OUT = {n.id: set() for n in g.nodes}
+    preds = g.preds()
+    order = g.rpo()
+    vars_ = set(defs.values())
+    changed = True
+    while changed:
+        changed = False
+        for i in order:
+            inn = {(v, ENTRY) for v in vars_} if g.nodes[i] is g.entry else set()
+            for p in preds[i]:
+                inn |= OUT[p]
+            out = set(inn)
+            if i in defs:
+                out = {(v, d) for (v, d) in out if v != defs[i]} | {(defs[i], i)}
+            out |= {(v, i) for v in weak[i] if v in vars_}
+            if inn != IN[i] or out != OUT[i]:
+                IN[i], OUT[i] = inn, out
+                changed = True
+    ok = set(cand)
+    again = True
+    while again:
+        again = False
+        for i in list(ok):
+            v = defs[i]
+            for (vv, d) in IN[i]:
+                if vv == v and d != ENTRY and d not in ok:
+                    ok.discard(i)
+                    again = True
+                    break
+    return {(defs[i], g.nodes[i].line) for i in ok}
+
+
 def unassigned_locals_to_zero(g, outputs, record):
     """reference side only: a local that is never assigned anywhere in the unit and never passed to a callee
     that may write it is read as 0 (static storage); recorded as an admissible difference"""
@@ -690,10 +765,20 @@ def normalise_cfg(g, outputs, notes, keep_vars=(), lang=None):
         g = cfgm.compact(g, drop=('nop', 'io'))
         # (b) degenerate branches
         for n in g.nodes:
+            if n.kind == 'branch' and n.succ[0] != n.succ[1] and _pure(n.stmt[1]):
+                a, b2 = g.nodes[n.succ[0]], g.nodes[n.succ[1]]
+                if a.kind == 'return' and b2.kind == 'return' and a.stmt[1] == b2.stmt[1]:
+                    n.succ = [n.succ[0], n.succ[0]]      # both arms are the same plain return
             if n.kind == 'branch' and n.succ[0] == n.succ[1] and _pure(n.stmt[1]):
                 n.kind = 'nop'
                 n.succ = [n.succ[0]]
                 changed = True
+            if n.kind == 'branch' and n.stmt[1][0] == 'op' and n.stmt[1][1] == '!=' and len(n.stmt[1]) == 4:
+                t = g.nodes[n.succ[0]]
+                if t.kind == 'assign' and t.succ == [n.succ[1]] and {t.stmt[1], t.stmt[2]} == set(n.stmt[1][2:]):
+                    n.kind = 'nop'          # if (x != y) x = y  ==  x = y
+                    n.succ = [t.id]
+                    changed = True
             if n.kind == 'branch' and n.stmt[1][0] == 'num':
                 n.kind = 'nop'
                 n.succ = [n.succ[0] if n.stmt[1][1] != 0 else n.succ[1]]
@@ -945,6 +1030,8 @@ class Bisim:
         self.admissible_zero_init = set()
         self.admissible_used = []
         self.fout = self.cout = ()
+        self.admissible_mirror = set()
+        self.admissible_port_calls = set()
         self.suffix_summaries = 0
         self.seed_names()
 
@@ -1127,6 +1214,9 @@ class Bisim:
 
     def admissible_init(self, c):
         d = node_def(c)
+        if c.kind == 'assign' and c.stmt[1][0] == 'var' and c.stmt[2][0] == 'var' \
+                and (c.stmt[1][1], c.stmt[2][1]) in self.admissible_mirror:
+            return True          # parameter-struct mirror of a by-value argument
         if c.kind == 'assign' and c.stmt[1][0] == 'var' and c.stmt[2] == ('call', 'quiet_nan'):
             return True          # NaN poison of a local the reference leaves unassigned
         return c.kind == 'assign' and c.stmt[1][0] == 'var' and c.stmt[2] == ('num', Fraction(0)) \
@@ -1202,6 +1292,11 @@ class Bisim:
                     if ok:
                         continue
             m = self.node_eq(f, c)
+            if m and c.kind == 'call' and c.stmt[1] in self.admissible_port_calls and len(c.succ) == 1:
+                self.admissible_used.append(('port-only-call', c.line, desc(c)))
+                self.pairs.discard((fi, ci))
+                work.append((fi, c.succ[0]))
+                continue
             if m and c.kind == 'assign' and self.admissible_init(c) and len(c.succ) == 1:
                 self.admissible_used.append(('zero-init', c.line, desc(c)))
                 self.pairs.discard((fi, ci))
